@@ -385,6 +385,13 @@ fn long_programs<G: GroupApi>(run: &Run) {
         ops.push(Op::MulAk(g.clone()));
         ops.push(Op::SetS(g));
     }
+    // and the whole boundary scalar alphabet (long runs of ones / zeros, lambda, powers of two, ...)
+    for k in mccore::alpha::scalars(mccore::Tier::Quick, run.seed) {
+        if !ops.contains(&Op::MulAk(k.clone())) {
+            ops.push(Op::MulAk(k.clone()));
+            ops.push(Op::SetS(k));
+        }
+    }
     let len: usize = run.tier.pick(24, 64);
     let nops = ops.len();
     let mut sm = mccore::alpha::SplitMix(run.seed ^ 0x10_60_9);
